@@ -255,12 +255,12 @@ func (c *Ctx) validatorSummary(ta *ssa.TypeAssert) (string, bool) {
 		okAll := true
 		n := 0
 		for _, r := range core.ReturnsOf(f) {
-			if c.M.ProvablyNonNilError(core.RetVal(r, ei), r.Block()) {
+			if c.M.RetNonNil(r, ei) {
 				continue
 			}
 			n++
 			found := false
-			for _, rc := range core.CondsAt(r.Block()) {
+			for _, rc := range r.Conds() {
 				if !rc.True {
 					continue
 				}
@@ -390,16 +390,61 @@ func (c *Ctx) metaRoot(ta *ssa.TypeAssert) (string, bool) {
 	if len(cs) != 1 || c.M.Key(cs[0]) != "schema.ScopeSchema.Unserialize" || len(call.Call.Args) < 1 {
 		return "", false
 	}
+	// must be dominated by err == nil
+	if !errNilFor(ta.Block(), call) {
+		return "", false
+	}
+	// in a generic worker that the loaders share: the scope is a parameter and the asserted type a type parameter; at
+	// every call site the scope passed is a global whose root object is struct-mapped to the type argument passed
+	if p, isParam := call.Call.Args[0].(*ssa.Parameter); isParam {
+		tp, isTP := ta.AssertedType.(*types.TypeParam)
+		fn := ta.Parent()
+		sites := core.PlainSites(fn)
+		if !isTP || len(sites) == 0 {
+			return "", false
+		}
+		tpIdx, pIdx := -1, -1
+		for i := 0; i < fn.TypeParams().Len(); i++ {
+			if fn.TypeParams().At(i) == tp {
+				tpIdx = i
+			}
+		}
+		for i, q := range fn.Params {
+			if q == p {
+				pIdx = i
+			}
+		}
+		if tpIdx < 0 || pIdx < 0 {
+			return "", false
+		}
+		var names []string
+		for _, site := range sites {
+			inst := site.Call.StaticCallee()
+			if inst == nil || tpIdx >= len(inst.TypeArgs()) || pIdx >= len(site.Call.Args) {
+				return "", false
+			}
+			ld, ok := site.Call.Args[pIdx].(*ssa.UnOp)
+			if !ok {
+				return "", false
+			}
+			g, ok := ld.X.(*ssa.Global)
+			if !ok {
+				return "", false
+			}
+			rootT := c.metaScopeRootType(g)
+			if rootT == nil || !types.Identical(rootT, inst.TypeArgs()[tpIdx]) {
+				return "", false
+			}
+			names = append(names, g.Name()+" -> "+typeStr(rootT))
+		}
+		return "D7 meta-root: at every call site the scope is a global whose root object is struct-mapped to the type argument (" + strings.Join(names, ", ") + ")", true
+	}
 	ld, ok := call.Call.Args[0].(*ssa.UnOp)
 	if !ok {
 		return "", false
 	}
 	g, ok := ld.X.(*ssa.Global)
 	if !ok {
-		return "", false
-	}
-	// must be dominated by err == nil
-	if !errNilFor(ta.Block(), call) {
 		return "", false
 	}
 	rootT := c.metaScopeRootType(g)
@@ -410,6 +455,42 @@ func (c *Ctx) metaRoot(ta *ssa.TypeAssert) (string, bool) {
 		return "D7 meta-root: " + g.Name() + " is a scope whose root object is struct-mapped to " + typeStr(rootT) + " (unserializeToStruct returns exactly that type)", true
 	}
 	return "", false
+}
+
+// withWorkers adds, to a set of functions, the unexported functions of the module that only they call (the worker halves
+// of entry/worker pairs): what is examined in the entries is examined in their workers.
+func (c *Ctx) withWorkers(fns map[*ssa.Function]bool) map[*ssa.Function]bool {
+	out := map[*ssa.Function]bool{}
+	for f := range fns {
+		out[f] = true
+	}
+	for round := 0; round < 3; round++ {
+		for f := range out {
+			for _, b := range f.Blocks {
+				for _, in := range b.Instrs {
+					call, ok := in.(*ssa.Call)
+					if !ok {
+						continue
+					}
+					w := core.StaticBody(&call.Call)
+					if w == nil || out[w] {
+						continue
+					}
+					sites := core.PlainSites(w)
+					all := len(sites) > 0
+					for _, s := range sites {
+						if !out[s.Parent()] {
+							all = false
+						}
+					}
+					if all {
+						out[w] = true
+					}
+				}
+			}
+		}
+	}
+	return out
 }
 
 func errNilFor(b *ssa.BasicBlock, call *ssa.Call) bool {
